@@ -232,7 +232,7 @@ func tokringC04(c *Ctx) {
 		rn := recvTypeName(o)
 		if rn == "Parser" && o.Name() != "scan" && o.Name() != "peekRune" || rn == "ParseTree" || isInitFunc(root.Name()) && f.Parent() != nil {
 			spec.scope[f] = true
-			sig := f.Signature.String()
+			sig := sigKey(f.Signature)
 			if f.Parent() != nil {
 				spec.bySig[sig] = append(spec.bySig[sig], f)
 			}
